@@ -44,6 +44,7 @@ def check(ctx):
     ctx.require_min('C13.S1', 3)
     ctx.require_min('C13.S2', 1)
     ctx.require_min('C13.S3', 1)
+    witness.check_static_unit(ctx, 'C13.S4', os.path.join(extract.VERIF, 'witness', 's_meta.cpp'), 'queue list policy detection', tag='C13')
     witness.check_static_unit(ctx, 'C13.S4', os.path.join(extract.VERIF, 'witness', 's_select.cpp'), 'queue list selection', tag='C13')
 
 
